@@ -9,6 +9,7 @@ package main
 
 import (
 	"bufio"
+	"strconv"
 	"encoding/json"
 	"flag"
 	"fmt"
@@ -53,6 +54,7 @@ type Result struct {
 	Exhaustive   bool           `json:"exhaustive"`
 	Notes        []string       `json:"notes"`
 	InternalErrs []string       `json:"internal_errors"`
+	ModelArms    map[string]int `json:"model_arms"` // arms of the Lean model exercised by this run's EVAL requests (counted by the driver)
 	GenStale     []string       `json:"generator_stale"` // generated "sentences" the model does not read as generated: an internal error unless the grammar file was edited
 	WallS        float64        `json:"wall_s"`
 }
@@ -243,6 +245,16 @@ func main() {
 			os.Exit(2)
 		}
 		fn(ctx)
+	}
+	// which arms of the model did the EVAL requests of this run take?
+	res.ModelArms = map[string]int{}
+	if st := ctx.ask1("STATS"); st != "" && st != "DRIVERDEAD" && st != "BADCMD" {
+		for _, kv := range strings.Split(st, ";") {
+			if i := strings.LastIndex(kv, "="); i > 0 {
+				n, _ := strconv.Atoi(kv[i+1:])
+				res.ModelArms[kv[:i]] = n
+			}
+		}
 	}
 	ctx.drvIn.Close()
 	ctx.drvCmd.Wait()
